@@ -153,7 +153,11 @@ func (t *table) createSQL() string {
 		parts = append(parts, colSpecSQL(t, c))
 	}
 	for _, ck := range t.checks {
-		parts = append(parts, "CHECK ("+ck.e.sql(t)+")")
+		if ck.named {
+			parts = append(parts, "CONSTRAINT "+ck.name+" CHECK ("+ck.e.sql(t)+")")
+		} else {
+			parts = append(parts, "CHECK ("+ck.e.sql(t)+")")
+		}
 	}
 	var pk []string
 	for _, p := range t.pk {
@@ -238,7 +242,17 @@ func genTable(rt *rapid.T, name string, forConc bool) (*table, []index) {
 	// CHECK constraints
 	for k := rapid.IntRange(0, 2).Draw(rt, "nChecks"); k > 0; k-- {
 		if e := genCheck(rt, t, 1); e != nil {
-			t.checks = append(t.checks, check{e: e})
+			t.checks = append(t.checks, check{e: e, named: chance(rt, "namedCheck", 60)})
+		}
+	}
+	// names as the engine assigns them: declared, or <table>_check<n> counting the unnamed ones
+	unnamed := 0
+	for i := range t.checks {
+		if t.checks[i].named {
+			t.checks[i].name = fmt.Sprintf("ck%d_%s", i+1, t.name)
+		} else {
+			unnamed++
+			t.checks[i].name = fmt.Sprintf("%s_check%d", t.name, unnamed)
 		}
 	}
 	if len(t.checks) > 0 {
@@ -798,7 +812,10 @@ func whereLeaf(rt *rapid.T, t *table, o genOpts) expr {
 // DDL on populated tables
 
 func (h *harness) genDDL(rt *rapid.T, t *table, later *[]index, inTx bool) *stmt {
-	kind := weighted(rt, "ddl", []wc{{"index", 40}, {"add", 22}, {"drop", 18}, {"rename", 20}})
+	kind := weighted(rt, "ddl", []wc{{"index", 36}, {"add", 20}, {"drop", 16}, {"rename", 18}, {"dropcheck", 10}})
+	if len(t.checks) > 0 && chance(rt, "preferDropCheck", 25) {
+		kind = "dropcheck"
+	}
 	if inTx && kind == "add" {
 		// ADD COLUMN only as an autocommit statement: the store's index mappers keep the catalog object of the
 		// transaction that registered them, a column added by a transaction that does not commit stays in it,
@@ -871,6 +888,13 @@ func (h *harness) genDDL(rt *rapid.T, t *table, later *[]index, inTx bool) *stmt
 			s.cid = bound[rapid.IntRange(0, len(bound)-1).Draw(rt, "dropBoundCol")].id
 		default:
 			return nil
+		}
+	case "dropcheck":
+		s.kind = kDropCheck
+		if len(t.checks) == 0 || chance(rt, "dropMissingCheck", 8) {
+			s.newName = "ck_none_" + t.name
+		} else {
+			s.newName = t.checks[rapid.IntRange(0, len(t.checks)-1).Draw(rt, "dropCheck")].name
 		}
 	case "rename":
 		s.kind = kRenameCol
@@ -972,6 +996,8 @@ func (h *harness) render(t *table, s *stmt, useParams bool) {
 		sb.WriteString("ALTER TABLE " + t.name + " ADD COLUMN " + colSpecSQL(t, s.ncol))
 	case kDropCol:
 		sb.WriteString("ALTER TABLE " + t.name + " DROP COLUMN " + cname(t, s.cid))
+	case kDropCheck:
+		sb.WriteString("ALTER TABLE " + t.name + " DROP CONSTRAINT " + s.newName)
 	case kRenameCol:
 		sb.WriteString("ALTER TABLE " + t.name + " RENAME COLUMN " + cname(t, s.cid) + " TO " + s.newName)
 	}
